@@ -11,7 +11,7 @@ import drv_solve
 import reports
 from check import Result, conclude
 from props_solve import build_behaviours, struct_digest
-from project import project
+from project import node_of, project
 
 REGISTRY = {}
 
@@ -458,7 +458,7 @@ def batt_cases(ctx, n_sys, faults):
             if not (ib > 1e-7):
                 continue        # the battery no longer supplies anything: its capacity would never run out (outside C18)
         n += 1
-        v0 = abs(s._g[s._get_index(bat)]._params["vo"]) * rng.uniform(0.9, 1.15)
+        v0 = abs(s._g[node_of(s, bat)]._params["vo"]) * rng.uniform(0.9, 1.15)
         r0 = rng.choice([0.0, 0.05, 0.3])
         phases = list(s._g.attrs["phases"].values())
         # size the capacity so that the run has 5..60 steps
